@@ -4,6 +4,7 @@ import (
 	"fmt"
 
 	"verif/explore"
+	"verif/spaces"
 )
 
 // treeSpaces runs body over the S3 token spaces and the corpus (the grammar spaces are added by grammar-based checks).
@@ -21,6 +22,7 @@ func treeSpaces(r *explore.Run, gramBase int, body func(c *explore.Ctx, e *Entry
 	grammarTreeSpace(r, gramBase, wrap)
 	editSpace(r, 1, wrap)
 	corpusEditSpace(r, wrap)
+	byteTreeSpace(r, wrap)
 }
 
 func outcomeTree(c *explore.Ctx, e *Entry, s string, res ParseResult) {
@@ -125,4 +127,24 @@ func init() {
 	Registry["C05"] = C05
 	Registry["C09"] = C09
 	Registry["C10"] = C10
+}
+
+// byteTreeSpace: short byte strings over the general lexical alphabet through three entry points
+// (reaches token forms that no token alphabet spells, e.g. a parameter glued to a quoted identifier).
+func byteTreeSpace(r *explore.Run, body func(c *explore.Ctx, e *Entry, s string)) {
+	k := 4
+	if r.Tier == "thorough" {
+		k = 5
+	}
+	syms := spaces.SigmaGen
+	ents := []*Entry{EntryByName("ParseExpr"), EntryByName("ParseType"), EntryByName("ParseStatement")}
+	r.Explore(explore.Options{Space: "S1/gen-through-parsers", MaxDev: -1,
+		Bound: fmt.Sprintf("all strings of length<=%d over %d symbols (%d) x 3 entry points", k, len(syms), spaces.Count(len(syms), k))}, func(c *explore.Ctx) {
+		s := spaces.Str(c, syms, k)
+		c.Input(s)
+		c.Sample(fmt.Sprintf("%q", s))
+		for _, e := range ents {
+			body(c, e, s)
+		}
+	})
 }
